@@ -472,6 +472,165 @@ theorem T_C19_stack_chop_reject (nx ny nz : Nat) (hz : 0 < nz) (h0 : nx = 0 ∨ 
 /-- non-vacuity: 2 x 5 x 3 — three operations are chopped, the first of every tier -/
 example : (stackGrid 2 5 3).bind stackChop = some [cell 0 0 0, cell 0 0 1, cell 0 0 2] := by decide
 
+
+/-! ### round 6 — the model computes from what the source says (tables regenerated with `ast` at every run) -/
+
+/-- `Stack.get_slice`: its branches as regenerated from the source (`CBV.Gen.c19SliceSpec`: the axis tested, the element
+    expression of the comprehension, what is iterated), interpreted, are the model's `getSlice` on every stack, axis, index -/
+theorem T_C19_tie_get_slice {β : Type} (G : List (List (List β))) (a idx : Nat) :
+    getSliceBy CBV.Gen.c19SliceSpec G a idx = getSlice G a idx := by
+  by_cases h2 : a = 2
+  · subst h2; rfl
+  by_cases h0 : a = 0
+  · subst h0; rfl
+  have hb : sliceBranch CBV.Gen.c19SliceSpec a = some ["shape.grid[index][loop]", "range(len(shape.grid[index]))"] := by
+    have e2 : ((2 : Nat) == a) = false := by simpa using Ne.symm h2
+    have e0 : ((0 : Nat) == a) = false := by simpa using Ne.symm h0
+    by_cases h99 : a = 99
+    · subst h99; rfl
+    · have e99 : ((99 : Nat) == a) = false := by simpa using Ne.symm h99
+      simp [sliceBranch, CBV.Gen.c19SliceSpec, List.find?, e2, e0, e99]
+  simp only [getSliceBy, hb, getSlice, if_neg h2, if_neg h0]
+  rfl
+
+/-- `Stack.chop` as regenerated from the source is the model's `stackChop`, and the chop is along the stack (axis 2) -/
+theorem T_C19_tie_stack_chop {β : Type} (G : List (List (List β))) :
+    stackChopBy CBV.Gen.c19StackChop G = (stackChop G).map (·, 2) := rfl
+
+/-- `Grid.__init__`: the outer loop runs over the rows (`iy`, `count_2`), the inner one over the columns (`ix`, `count_1`) —
+    the order of `gridSketch`; `coords_1` are the x and `coords_2` the y coordinates with `count + 1` entries — `nodePos`; the four
+    points of the face made for `(ix, iy)` are `Face3.nodes` -/
+theorem T_C19_tie_grid_init :
+    CBV.Gen.c19GridLoops = [("iy", "count_2"), ("ix", "count_1")] ∧
+    CBV.Gen.c19GridCoords = [("coords_1", 0, "count_1"), ("coords_2", 1, "count_2")] ∧
+    CBV.Gen.c19GridPoints.all (fun p => p.1.1 == "coords_1" && p.1.2.1 == "ix" && p.2.1 == "coords_2" && p.2.2.1 == "iy") = true ∧
+    ∀ ix iy l, (⟨ix, iy, l⟩ : Face3).nodes = CBV.Gen.c19GridPoints.map (fun p => (ix + p.1.2.2, iy + p.2.2.2)) :=
+  ⟨by decide, by decide, by decide, fun _ _ _ => rfl⟩
+
+/-- the one-line properties the model takes literally -/
+def modelledReturns : List (String × String) :=
+  [("RoundSolidShape.core", "self.operations[:len(self.sketch_1.core)]"),   -- `coreShell`, `T_C19_core_shell_split`
+   ("RoundSolidShape.shell", "self.operations[len(self.sketch_1.core):]"),
+   ("RoundHollowShape.shell", "self.operations"),                           -- `T_C19_annulus`
+   ("LoftedShape.operations", "f.flatten_2d_list(self.lofts)"),             -- `operations`
+   ("LoftedShape.grid", "self.lofts"),                                      -- `loftedGrid`
+   ("Stack.grid", "[shape.grid for shape in self.shapes]"),                 -- `stackGrid`
+   ("Stack.operations", "f.flatten_2d_list([shape.operations for shape in self.shapes])"),  -- `stackOps`
+   ("Annulus.faces", "self.shell"), ("MappedSketch.faces", "self._faces"), ("Grid.faces", "f.flatten_2d_list(self.grid)")]
+
+theorem T_C19_tie_returns :
+    modelledReturns.all (fun m => (lookup m.1 CBV.Gen.c19Returns).map (·.2) == some m.2) = true := by decide
+
+/-- what the model computes from the source text of a sketch class (`quad_map`, merges, the `grid` expression, `core`, `shell`)
+    is what the probe instance of that class shows: number of faces, the faces (classes with their own `quad_map`), grid, core, shell -/
+def srcMatchesTable (r : SketchRow) : Bool :=
+  match sketchFromSource r.1 with
+  | some s => s.n == r.2.1.length && s.grid == r.2.2.1 && s.core == r.2.2.2.1 && s.shell == r.2.2.2.2.1 &&
+      (match lookup r.1 CBV.Gen.c19QuadMaps with
+        | some q => canonCells q == r.2.1
+        | none => true)
+  | none => false
+
+theorem T_C19_sketch_from_source :
+    (CBV.Gen.c19Sketches.filter (fun r => (lookup r.1 CBV.Gen.c19GridSpecs).isSome)).all srcMatchesTable = true := by
+  decide +kernel
+
+/-- non-vacuity: the twelve classes with a fixed topology are in both tables -/
+example : (CBV.Gen.c19Sketches.filter (fun r => (lookup r.1 CBV.Gen.c19GridSpecs).isSome)).length = 12 := by decide +kernel
+
+/-- a prefix split `[faces[:c], faces[c:]]` (OneCoreDisk, HalfDisk, FourCoreDisk, Oval; with c = 1 also `[[faces[0]], faces[1:]]` of
+    QuarterDisk / QuarterSplineDisk) for ANY number of faces n ≥ c: the first row holds the faces 0 … c−1, the second c … n−1, and
+    the flattened grid is the list of faces in order (so `shape.operations[k]` is made of `faces[k]`) -/
+theorem T_C19_split_grid (n c : Nat) (hc : c ≤ n) :
+    evalGrid n [(0, 0, c + 1, 1), (0, c, 0, 1)] = some [List.range c, List.range' c (n - c)] ∧
+    operations [List.range c, List.range' c (n - c)] = List.range n ∧
+    (0 < n → evalRow n (1, 0, 0, 0) = evalRow n (0, 0, 2, 1)) := by
+  have hsplit : List.range n = List.range' 0 c ++ List.range' c (n - c) := by
+    have h := @List.range'_append_1 0 c (n - c)
+    simp only [Nat.zero_add] at h
+    rw [List.range_eq_range', h]; congr 1; omega
+  refine ⟨?_, ?_, ?_⟩
+  · have r1 : evalRow n (0, 0, c + 1, 1) = some (List.range c) := by
+      simp only [evalRow, if_true, sliceIdx]
+      simp only [show ¬ ((1 : Nat) = 0) by decide, if_false, show ¬ (c + 1 = 0) by omega, Nat.add_sub_cancel]
+      congr 1
+      rw [hsplit, List.filter_append, List.range_eq_range']
+      have h1 : (List.range' 0 c).filter (fun i => decide (0 ≤ i) && decide (i < c) && (i - 0) % 1 == 0) = List.range' 0 c := by
+        rw [List.filter_eq_self]; intro a ha; simp only [List.mem_range'_1] at ha; simp; omega
+      have h2 : (List.range' c (n - c)).filter (fun i => decide (0 ≤ i) && decide (i < c) && (i - 0) % 1 == 0) = [] := by
+        rw [List.filter_eq_nil_iff]; intro a ha; simp only [List.mem_range'_1] at ha; simp; omega
+      rw [h1, h2]; simp
+    have r2 : evalRow n (0, c, 0, 1) = some (List.range' c (n - c)) := by
+      simp only [evalRow, if_true, sliceIdx]
+      simp only [show ¬ ((1 : Nat) = 0) by decide, if_false]
+      congr 1
+      rw [hsplit, List.filter_append]
+      have h1 : (List.range' 0 c).filter (fun i => decide (c ≤ i) && true && (i - c) % 1 == 0) = [] := by
+        rw [List.filter_eq_nil_iff]; intro a ha; simp only [List.mem_range'_1] at ha; simp; omega
+      have h2 : (List.range' c (n - c)).filter (fun i => decide (c ≤ i) && true && (i - c) % 1 == 0) = List.range' c (n - c) := by
+        rw [List.filter_eq_self]; intro a ha; simp only [List.mem_range'_1] at ha; simp; omega
+      rw [h1, h2]; simp
+    simp [evalGrid, allSome, r1, r2]
+  · rw [hsplit, List.range_eq_range']; simp [operations]
+  · intro hn
+    have key : ∀ p : Nat → Bool, p 0 = true → (∀ i, p (i + 1) = false) → (List.range n).filter p = [0] := by
+      intro p h0 hs
+      obtain ⟨m, rfl⟩ : ∃ m, n = m + 1 := ⟨n - 1, by omega⟩
+      rw [List.range_succ_eq_map, List.filter_cons, if_pos h0, List.filter_map]
+      have : (List.range m).filter (p ∘ Nat.succ) = [] := by
+        rw [List.filter_eq_nil_iff]; intro a _; simp [hs a]
+      rw [this]; rfl
+    have e1 : evalRow n (1, 0, 0, 0) = some [0] := by simp [evalRow, hn]
+    have e2 : evalRow n (0, 0, 2, 1) = some [0] := by
+      simp only [evalRow, if_true, sliceIdx, show ¬ ((1 : Nat) = 0) by decide, show ¬ ((2 : Nat) = 0) by decide, if_false]
+      congr 1
+      apply key
+      · rfl
+      · intro i; simp
+    rw [e1, e2]
+
+/-- non-vacuity: FourCoreDisk's expression on its 12 faces -/
+example : evalGrid 12 [(0, 0, 5, 1), (0, 4, 0, 1)] = some [[0, 1, 2, 3], [4, 5, 6, 7, 8, 9, 10, 11]] := by decide
+
+/-- the split of the spline disks `[faces[::3], [face for i, face in enumerate(faces) if not i % 3 == 0]]` for ANY number of faces
+    (Half: 6, full: 12, and every further merge of quarters): the two rows are duplicate free, every face is in exactly one of them,
+    the first row holds exactly the faces with index ≡ 0 (mod 3) — `merge` appends the three faces of a quarter (core, shell, shell)
+    block by block, so these are the core faces of the quarters — and the second the others -/
+theorem T_C19_mod3_grid (n : Nat) :
+    ∃ r0 r1, evalGrid n [(0, 0, 0, 3), (2, 3, 0, 0)] = some [r0, r1] ∧ r0.Nodup ∧ r1.Nodup ∧
+      (r0 ++ r1).Perm (List.range n) ∧
+      (∀ i, i ∈ r0 ↔ (i < n ∧ i % 3 = 0)) ∧ (∀ i, i ∈ r1 ↔ (i < n ∧ i % 3 ≠ 0)) := by
+  refine ⟨(List.range n).filter (fun i => i % 3 == 0), (List.range n).filter (fun i => !(i % 3 == 0)), ?_,
+    List.Nodup.filter _ List.nodup_range, List.Nodup.filter _ List.nodup_range, List.filter_append_perm _ _, ?_, ?_⟩
+  · have r1 : evalRow n (0, 0, 0, 3) = some ((List.range n).filter (fun i => i % 3 == 0)) := by
+      simp [evalRow, sliceIdx]
+    have r2 : evalRow n (2, 3, 0, 0) = some ((List.range n).filter (fun i => !(i % 3 == 0))) := by
+      simp [evalRow]
+    simp [evalGrid, allSome, r1, r2]
+  · intro i; simp [List.mem_filter]
+  · intro i; simp [List.mem_filter]
+
+/-- the quarter the spline disks are merged from: its face 0 has no point on the rim, faces 1 and 2 have (generated table row) -/
+theorem T_C19_spline_quarter :
+    (sketchRow? "QuarterSplineDisk").map (fun r => (List.range 3).map (touches r.2.1 r.2.2.2.2.2)) = some [false, true, true] := by
+  decide
+
+/-- non-vacuity / instances: the spline disks of the source take this branch (their face count exceeds the guard) -/
+example : (sketchFromSource "HalfSplineDisk").map (·.grid) = some [[0, 3], [1, 2, 4, 5]] ∧
+    (sketchFromSource "SplineDisk").map (·.grid) = some [[0, 3, 6, 9], [1, 2, 4, 5, 7, 8, 10, 11]] := by decide +kernel
+
+/-- `Sketch.chops` (indexes into `shape.operations`, along which `LoftedShape.chop` chops the radial and the tangential direction)
+    address operations that exist and lie outside the core, for every sketch class of the source -/
+def chopsOk (name : String) : Bool :=
+  match sketchFromSource name, lookup name CBV.Gen.c19Chops with
+  | some s, some ch => ch.all (fun axis => axis.all (fun i => decide (s.core.length ≤ i) && decide (i < s.n)))
+  | _, _ => false
+
+theorem T_C19_chops_address_shell :
+    ((CBV.Gen.c19GridSpecs.map (·.1)).filter (fun n => (sketchFromSource n).isSome)).all chopsOk = true := by decide +kernel
+
+example : 12 ≤ ((CBV.Gen.c19GridSpecs.map (·.1)).filter (fun n => (sketchFromSource n).isSome)).length := by decide +kernel
+
 /-! ### round sketches and shapes: `decide` on the tables generated from the current source -/
 
 /-! ### beyond the probe instances -/
@@ -496,7 +655,7 @@ theorem T_C19_annulus (n k : Nat) (hk : k < n) :
     simp only [List.getD_eq_getElem?_getD, List.getElem?_map, List.getElem?_range hk, Option.map_some, Option.getD_some,
       List.any_cons, List.contains_eq_mem, List.mem_map, List.mem_range]
     simp
-    first | exact Or.inr (Or.inl hk) | exact Or.inr (Or.inl ⟨k, hk, rfl⟩)
+    exact Or.inr (Or.inl hk)
   · simp [annulusCells, hk]
   · simp only [annulusRim, List.mem_map, List.mem_range, not_exists, not_and]
     intro a _
